@@ -120,7 +120,8 @@ def handle(c):
                 out['msg'] = 'the unscaled model runs but the scaled one (variant %d) raises %s: %s | %s | cfg=%s' % (
                     k, type(e).__name__, str(e)[:200], traceback.format_exc()[-400:], cfg)
             continue
-        exact = bool(variant['pow2']) and not coupled and cfg.get('lin') in ('runonce', 'lbgs')
+        exact = bool(variant['pow2']) and not coupled and cfg.get('lin') in ('runonce', 'lbgs') and \
+            not cfg.get('approx')
         for key in [('state',), ('inputs',)] + [('J', m, ds) for m in ('fwd', 'rev') for ds in (False, True)]:
             kk = key[0] if len(key) == 1 else key
             good, why = same(obs[kk], base[kk], exact, tol, 0.0 if exact else slack)
@@ -129,7 +130,8 @@ def handle(c):
                 what = {'state': 'converged outputs', 'inputs': 'inputs'}.get(key[0], 'compute_totals %s' % (key[1:],))
                 out['msg'] = '%s change under solver scaling (variant %d, %s): %s | cfg=%s' % (
                     what, k, 'exact' if exact else 'tol %g' % tol, why, cfg)
-                out['sig'] = 'scaling:%s:%s:%s' % (key[0], cfg.get('lin'), key[1] if len(key) > 1 else '')
+                out['sig'] = 'scaling:%s:%s:%s%s' % (key[0], cfg.get('lin'), key[1] if len(key) > 1 else '',
+                                                     ':approx_totals' if cfg.get('approx') else '')
                 if key[0] == 'J' and key[1] == 'rev' and str(cfg.get('lin', '')).startswith('direct') \
                         and cfg.get('jac') is None:
                     out['sig'] = 'direct-rev-nonassembled-scaled'
